@@ -38,6 +38,8 @@ func agentLifeCmd(args []string) int {
 		if err == nil {
 			err = rig.TruthRuns(*bin, base, emit)
 		}
+	} else if *mode == "stop" {
+		err = rig.StopRuns(*bin, base, emit)
 	} else {
 		err = rig.SecondStartSweep(*bin, base, *every, emit)
 	}
